@@ -6,3 +6,4 @@ import PvModel.Props.C13
 #print axioms Pv.Surface.C13_arm_local
 #print axioms Pv.Surface.C13_elab
 #print axioms Pv.Surface.C13_commit
+#print axioms Pv.Surface.C13_compound_pattern
